@@ -481,3 +481,22 @@ fn f29_empty_block_alt_on_a_plain_instruction_is_rejected_not_dropped() {
     }
     assert!(!print(&m.encode()).contains("block"));
 }
+
+#[test]
+fn f30_deleted_tagged_import_is_not_reported() {
+    use wirm::ir::module::side_effects::{InjectType, Injection};
+    use wirm::ir::types::Tag;
+    let w = wat::parse_str(r#"(module (type (func)) (func (export "f")))"#).unwrap();
+    let build = || {
+        let mut m = Module::parse(&w, false).unwrap();
+        m.add_import_func_with_tag("e".into(), "keep".into(), TypeID(0), Tag::new(b"keep".to_vec()));
+        let (gone, _) = m.add_import_func_with_tag("e".into(), "gone".into(), TypeID(0), Tag::new(b"gone".to_vec()));
+        m.delete_func(gone);
+        m
+    };
+    let text = print(&build().encode());
+    assert!(text.contains("\"keep\"") && !text.contains("\"gone\""));
+    let fx = build().pull_side_effects();
+    let names: Vec<String> = fx.get(&InjectType::Import).map(|v| v.iter().filter_map(|i| if let Injection::Import { name, .. } = i { Some(name.clone()) } else { None }).collect()).unwrap_or_default();
+    assert_eq!(names, vec!["keep".to_string()]);
+}
